@@ -4069,6 +4069,8 @@ class SkoExMacro(Macro):
             raise VeriTException("sko_ex", "expected one prev")
 
         pt = prevs[0]
+        if not pt.prop.is_equals():
+            raise VeriTException("sko_ex", "the premise should be an equality")
         if pt.rhs != rhs:
             raise VeriTException("sko_ex", "rhs should be equal to pt's rhs")
 
@@ -4185,6 +4187,8 @@ class SkoForallMacro(Macro):
             raise VeriTException("sko_forall", "expected one prev")
 
         pt = prevs[0]
+        if not pt.prop.is_equals():
+            raise VeriTException("sko_forall", "the premise should be an equality")
         if pt.rhs != rhs:
             raise VeriTException("sko_forall", "rhs should be equal to pt's rhs")
 
